@@ -39,4 +39,13 @@ PROPS = {
         'level_note': 'Hypotheses of C19_foreach: well-formed bytes and entry keys at least as long as the locus (shorter keys are bucketed by padding but compared by truncation; excluded and reported in DESIGN.md). Trusted: Coq kernel, extraction + driver.ml, harness.',
         'assumptions': ['entry keys are at least as long as the locus'],
     },
+    'C20': {
+        'coq': ['Props/C20.v', 'Tie/T_C20.v'],
+        'rule': 'simulated networks of 3-30 nodes (ring, clique, star, random sparse; optionally containing the all-zero id) whose nodes answer honestly, fail, return everyone / themselves / the initial peers / a cycle / 40-10000 fabricated ids creeping towards the key; 0-21 initial peers with duplicates; the four operations with both validation rules and MinAccepted -1..3. The harness records every Ask (node, answer) in order; the model is replayed on the recorded answers and must predict the same contact sequence and result. Non-trivial: an adversarial responder answered or at least two nodes were contacted',
+        'theorems': 'C20_{find,join,get,put}_terminates (every responder over peer-id-sized ids), C20_{find,join,get,put}_truthful (ask log genuine and NoDup, nearest/closest, value provenance and validation, accepted = distinct accepting nodes, error iff below effective minimum), C20_no_panic',
+        'trusted': ['slices.SortFunc modelled as insertion sort (the harness generates 32-byte keys and distinct ids so that the order is total)'],
+        'level_text': 'Theorems prove termination (well-founded measure over the finite id space), at-most-once contact and truthful results of the four iterative operations for EVERY responder function, by a loop invariant carried through dhtIterate. Tied to the code by replaying recorded Ask/answer histories from real DHTFindNode/DHTJoin/DHTGet/DHTPut runs on the extracted model (same contact sequence, same result struct) and by evaluating the property predicate on the implementation output; widths handed to dhtIterate are translator facts.',
+        'level_note': 'Trusted: Coq kernel, extraction + driver.ml, harness, translator. Closest ranges over visited nodes (find), responders (get), accepting nodes (put); see DESIGN.md.',
+        'assumptions': ['ids have the fixed peer-id length; get/put keys of 32 bytes in the correspondence (no distance ties)'],
+    },
 }
